@@ -481,6 +481,11 @@ impl HCtx {
             extra: match toks.get(6).and_then(|t| t.strip_prefix("xh=")) {
                 // dupcid:K — a SECOND X-Client-Id line, naming client K (a proxy that adds its own, a client that
                 // sends two): the request is the first line's
+                // bearer:K — client K's id offered as `Authorization: Bearer <id>` (by itself no part of the protocol)
+                Some(k) if k.starts_with("bearer:") => {
+                    let c: u32 = k[7..].parse().unwrap();
+                    vec![("Authorization".to_string(), format!("Bearer {}", self.l1.client(c).hyphenated()))]
+                }
                 Some(k) if k.starts_with("dupcid:") => {
                     let c: u32 = k[7..].parse().unwrap();
                     vec![("X-Client-Id".to_string(), self.l1.client(c).hyphenated().to_string())]
